@@ -3,7 +3,7 @@
 # Applies the seeded change to a scratch worktree of /repo's HEAD (so that /repo itself and any check running against it
 # are not disturbed), confirms tests pass and the demo fails there, runs the given checks with VERIF_REPO=<scratch>, removes it.
 # (Equivalent to: git -C /repo apply patch.diff; ./check ...; git -C /repo checkout -- .  - used when nothing else is running.)
-D="$1"; TIER="$2"; shift 2
+D="$(cd "$1" && pwd)"; TIER="$2"; shift 2
 W=/dev/shm/seedtry-$$
 git -C /repo worktree add -q --detach "$W" HEAD || exit 2
 cd "$W" || exit 2
